@@ -597,3 +597,115 @@ class touch_identity(_Write):
 
     def post(c, cx, result, self, id_name):
         return tx_clauses(world(cx), False)
+
+
+# ----------------------------------------------------------------------------- del_identity (loop over the keys of the identity)
+import z3                                                               # noqa: E402
+from pyvc.contracts import LoopSpec                                     # noqa: E402
+NKEYS = z3.Int('N_KEYS_OF_IDENTITY')
+BOOLARR_ = z3.ArraySort(INT, z3.BoolSort())
+
+
+class KeyNames:
+    """iteration over an Identity: its key names, any number"""
+
+    def __init__(self, owner):
+        self.owner = owner
+
+    def seq_len(self):
+        return NKEYS
+
+    def elem(self, it, i):
+        return NameVal(('key of', id(self.owner), str(simp(zint(i)))), 0, 'formal', owner=None)
+
+    def iterate(self, it, node):
+        raise Unsupported('iteration over the keys of an identity needs a loop specification')
+
+
+@contract
+class identity_iter(Contract):
+    fn = ks.Identity.__iter__
+    assumed = True
+
+    def use_contract_at(c, it, args, kwargs):
+        return isinstance(args[0], SymObj) and 'di' in it.run.ghost
+
+    def result(c, cx, self):
+        s = KeyNames(self)
+        cx.run.ghost['di']['seq'] = s
+        return s
+
+
+@contract
+class del_key_summary(Contract):
+    """call-site summary of del_key inside del_identity (its own contract is above): deletes that key or fails"""
+    fn = ks.KeychainSqlite3.del_key
+    assumed = True
+    raises = {**{e: (lambda cx, **p: True) for e in FAULTS}, KeyError: lambda cx, **p: True}
+
+    def use_contract_at(c, it, args, kwargs):
+        return 'di' in it.run.ghost
+
+    def result(c, cx, self, name):
+        g = cx.run.ghost['di']
+        i = g['cur_index'](cx.it)
+        if cx.run.branch(z3.Select(g['deleted'], i), 'key.deleted_twice'):
+            g['double'] = True
+        g['deleted'] = z3.Store(g['deleted'], i, z3.BoolVal(True))
+        g['names'].append(name)
+        return None
+
+
+def _di_inv(it, env, g):
+    d = it.run.ghost['di']
+    a = z3.Int('a!di')
+    w = world(type('cx', (), {'run': it.run})())
+    return {'exactly_the_keys_so_far_are_deleted_once': And(z3.ForAll([a], z3.Select(d['deleted'], a) == z3.And(a >= 0, a < zint(g['i']))),
+                                                           d['double'] is False),
+            'identity_row_not_touched_yet': not any(x[0] == 'execute' for x in w.log)}
+
+
+def _di_havoc(it, env, g):
+    d = it.run.ghost['di']
+    d['deleted'] = z3.Const(it.run.fresh_name('deleted'), BOOLARR_)
+    d['names'].clear()
+    return env['self']
+
+
+@contract
+class del_identity(_Write):
+    fn = ks.KeychainSqlite3.del_identity
+    doc = ('del_identity, ANY number of keys, a failure of any class injected at every step: the signer cache is emptied first; every '
+           'key of the identity is deleted (del_key) exactly once, in order, before the identity row is touched; then the row is '
+           'deleted and committed, or rolled back and the failure re-raised; a failing del_key stops the operation with the identity '
+           'still listed, so it can be repeated')
+    loops = {1: LoopSpec(_di_inv, havoc={'self': _di_havoc})}
+
+    def setup(self, cx):
+        run = cx.run
+        run.assume(NKEYS >= 0)
+        pre = {('k', 'l'): Opaque('signer', 'stale')}
+        kc = mk_keychain(cx, cache=pre)
+        run.ghost['di'] = dict(deleted=z3.K(INT, z3.BoolVal(False)), double=False, names=[], seq=None,
+                               cur_index=lambda it: zint(it.top_locals['__active_loop_ghosts__'][1]['i']))
+        return dict(self=kc, name=NameVal('identity arg'))
+
+    def post(c, cx, result, self, name):
+        w = world(cx)
+        d = cx.run.ghost['di']
+        a = z3.Int('a!dp')
+        out = tx_clauses(w, False)
+        out['signer_cache_empty'] = self.d['_signer_cache'] == {}
+        out['every_key_deleted_exactly_once'] = And(z3.ForAll([a], z3.Select(d['deleted'], a) == z3.And(a >= 0, a < NKEYS)), d['double'] is False)
+        ops = [x for x in w.log if x[0] in ('execute', 'commit', 'rollback')]
+        out['identity_row_deleted_and_committed'] = [x[0] for x in ops] == ['execute', 'commit'] and 'DELETE FROM identities' in ops[0][1] and \
+            ops[0][2][0].ident == name.ident
+        return out
+
+    def xpost(c, cx, exc, self, name):
+        w = world(cx)
+        out = tx_clauses(w, True)
+        out['signer_cache_emptied_before_anything_is_deleted'] = self.d['_signer_cache'] == {} or \
+            (not any(x[0] == 'execute' for x in w.log) and cx.run.ghost['di']['names'] == [] and cx.run.ghost['di']['seq'] is None)
+        out['nothing_committed_on_failure'] = ('commit',) not in w.log
+        return out
